@@ -115,6 +115,9 @@ def long_dna(L):
 
 
 def check_case(r, kind, case):
+    if kind == 'beyond':
+        r.merge(_w_beyond_limit(case['which']))
+        return
     if kind == 'bits':
         if case.get('bits') is not None:
             check_bits(r, [int(c) for c in case['bits']])
@@ -155,6 +158,34 @@ def _w_long(chunk):
     else:
         check_dna(r, long_dna(L)[i])
     r.maxi('long_' + kind, L)
+    return r
+
+
+def _w_beyond_limit(which):
+    """A decimal string of more than 4300 digits (the interpreter's int<->str conversion limit) rendered as
+    DNA / bits: the string-typed path must not depend on that limit."""
+    import dsw
+    r = core.Res()
+    with unlimited():
+        val = int('7' + '3' * 4310)
+        num = str(val)
+    if which == 'dna':
+        L = (val.bit_length() + 1) // 2
+        exp = O.kmer(val, L)
+        st, got, _ = brun(dsw.number_to_dna, decimal_number=num, dna_length=L, lim=10 ** 10)
+        ok = st == 'ok' and got == exp
+    else:
+        L = val.bit_length()
+        exp = U.bits_of(val, L)
+        st, got, _ = brun(dsw.number_to_bit, decimal_number=num, bit_length=L, lim=10 ** 10)
+        ok = st == 'ok' and _bits_ok(got, exp)
+    r.trans += 1
+    r.evals += 1
+    r.states += 1
+    r.nontriv += 1
+    r.maxi('decimal_digits_rendered', len(num))
+    if not ok:
+        r.v('C16|number_to_%s|str-path|beyond-4300-digits' % which, 'beyond', {'which': which}, 'rendering of a 4312-digit decimal string', repr(got)[:120] if st != 'ok' else 'differs')
     return r
 
 
@@ -204,7 +235,8 @@ def run(ctx):
             d = O.kmer(N, max(1, (N.bit_length() + 1) // 2))
             sweeps.append(('sweep_dna', d + 'C'))
             sweeps.append(('sweep_dna', 'A' + d + 'A'))
-    ctx.pmap(_w_sweep, core.chunks_of(sweeps, 20))
+    ctx.pmap(_w_sweep, core.chunks_of(sweeps, 20) )
+    ctx.pmap(_w_beyond_limit, ['dna'] if ctx.quick else ['dna', 'bit'])
     ctx.bounds = {'all_bit_arrays_up_to': LB, 'all_dna_strings_up_to': LD, 'long_bits': bl, 'long_dna': dl}
     ctx.rule = ('one case = one bit array / DNA string, converted to a number on the string and the integer path (list and '
                 'numpy containers) and back at the original and at a wider width, compared with Python int(...) / base-4 '
